@@ -192,7 +192,9 @@ MetaInitViols ==
   THEN {Viol("C07_MetaInit", "rename_not_dirsynced", MetaName)} ELSE {}
 
 AckViols(op, res) ==
-       (IF op = "store" /\ res = "ok" THEN AckCleanViols ELSE {})
+       \* also at the Ack of a DeleteRange: a tail truncation writes the forced seal (index + commit) into
+       \* the old tail, which metadata then calls sealed - "every code path that ... seals" (C07 quantifier)
+       (IF op \in {"store", "delete"} /\ res = "ok" THEN AckCleanViols ELSE {})
   \cup (IF res = "ok" THEN DeleteSyncedViols ELSE {})
   \cup (IF op # "store" THEN PreallocViols ELSE {})
   \cup (IF op = "open" /\ res = "ok" THEN MetaInitViols ELSE {})
